@@ -10,6 +10,9 @@ verus! {
 
 //@map HashMap => HMap
 //@map Box::pin => vx_box_pin
+//@map quinn::Connecting => Connecting
+//@map quinn::ConnectionError => ConnectionError
+//@map BiStream::from => vx_bistream_from
 //@map error_codes::SHUTDOWN => SHUTDOWN
 //@map pubsub::Socket => PubsubSocket
 //@map reqrep::Socket => ReqrepSocket
@@ -128,6 +131,7 @@ impl SharedTopics {
     #[verifier::external_body] pub async fn read(&self) -> (r: TopicsGuard) { unimplemented!() }
     #[verifier::external_body] pub async fn write(&self) -> (r: TopicsGuard) { unimplemented!() }
 }
+impl Clone for SharedTopics { #[verifier::external_body] fn clone(&self) -> (r: SharedTopics) { unimplemented!() } }
 impl TopicsGuard {
     pub uninterp spec fn view(&self) -> Map<TopicName, TopicChannel>;
     #[verifier::external_body] pub fn contains_key(&self, k: &TopicName) -> (r: bool) ensures r == self.view().dom().contains(*k) { unimplemented!() }
@@ -195,6 +199,13 @@ pub open spec fn all_topics_closed(m: Map<TopicName, TopicChannel>) -> bool { fo
 //@end
 
 // ---- server.rs ----
+// The accept loop of a connection only ever waits for the peer to open the next stream: every accepted stream is served by a
+// task of its own (tokio::spawn), so a stream that is slow to register, or whose topic is stalled, never holds up the other
+// streams of the same connection (which may belong to other topics).
+//@fn server/src/server.rs :: - :: handle_connection [props=C17] [logcalls=drop] [nodecreases] [loopawaits=1:accept_bi:C17.accept_loop_waits_only_for_new_streams]
+    ensures true,
+//@end
+
 //@fn server/src/server.rs :: - :: handle_stream [props=C17 C07 C11] [guards=ts]
     requires
         stream.answer() is Nothing,
